@@ -1,3 +1,4 @@
+import Btdht.Proofs.GuardTie.Boot
 import Btdht.Proofs.Dht
 import Btdht.Props.C04
 /-!
